@@ -24,14 +24,15 @@ from symx.harness import Ob, FuncTrace, source_digest, solve_ladder, eval_terms
 from . import gr
 
 PID = 'C17'
-MODS = ['Conformally_flat', 'Non_diagonal', 'Harvey_Tsoubelis', 'Collins_Stewart', 'Schwarzschild_isotropic', 'EdS', 'LCDM', 'Rosquist_Jantzen', 'Szekeres']
+MODS = ['Conformally_flat', 'Non_diagonal', 'Harvey_Tsoubelis', 'Collins_Stewart', 'Schwarzschild_isotropic', 'EdS', 'LCDM', 'Rosquist_Jantzen', 'Szekeres', 'ICPertFLRW']
 FILES = [f'src/aurel/solutions/{m}.py' for m in MODS]
 # Szekeres: K_xx, K_yy, the numeric/symbolic metric and the vanishing components are decided; the remaining identities (they
 # need sinh^(1/3), cosh, the hypergeometric contract and the LCDM roots together) are not settled by z3 in reach -> hunt only
 HUNT_ONLY = {'Szekeres': ('Kdown3[2,2]', 'Einstein[0,0]', 'Einstein[0,1]', 'Einstein[0,2]', 'Einstein[0,3]', 'Einstein[1,1]', 'Einstein[1,2]',
                           'Einstein[2,2]', 'Einstein[3,3]')}
 OUT_OF_REACH = {
-    'ICPertFLRW': 'first-order perturbation, not an exact solution; built on a caller-supplied fd',
+    'ICPertFLRW (Einstein equations)': 'first-order perturbation, not an exact solution: only K_ij = -(d_t gamma_ij)/2 on the EdS background and '
+                                       'the symmetry of its metric are claimed',
 }
 
 
@@ -263,7 +264,7 @@ def build_module(modname, tier):
                     K = gr.ungrid(mod.Kdown3(t, x, y, z))
                     Kor = st.Kdown
                     for i in range(3):
-                        for j in range(i, 3):
+                        for j in range(3):                 # every entry of the returned matrix, not only the upper triangle
                             obs.append(Ob(f'{modname}: Kdown3[{i},{j}]', T0(K[i, j]), T0(Kor[i, j]), pre,
                                           group=f'{modname}: K_ij == -(d_t gamma_ij)/(2 alpha)'))
                 # (2) Einstein's equations
@@ -292,7 +293,7 @@ def build_module(modname, tier):
                 if Tm is not None:
                     G = st.Einstein
                     for a in range(4):
-                        for b in range(a, 4):
+                        for b in range(4):                 # every entry of the returned matrix
                             lhs = G[a, b] + Lam * g0[a, b]
                             rhs = kap * T0(Tm[a, b])
                             obs.append(Ob(f'{modname}: Einstein[{a},{b}]', rhs, lhs, pre,
@@ -431,6 +432,69 @@ def sampler_for(modname):
     return f
 
 
+def icpert_obligations():
+    """ICPertFLRW on the EdS background (where K_ij = -(d_t gamma_ij)/2 is an exact identity of the module's formulas: F = 5/2,
+    H = 2/(3t)), with the curvature perturbation Rc a free time-independent jet and the module's fd argument replaced by exact
+    differentiation: all 9 entries of Kdown3 against the time derivative of the module's own gammadown3; gammadown3 symmetric.
+    (the module is a first-order initial-data approximation: Einstein's equations are not claimed for it)"""
+    from symx.fd import JetFD
+    from symx.jet import keys as jet_keys
+    icp = importlib.import_module('aurel.solutions.ICPertFLRW')
+    eds, over, pre = setup('EdS')
+    saved = {k: getattr(eds, k) for k in over}
+    obs = []
+    try:
+        for k, v in over.items():
+            setattr(eds, k, v)
+        with patched(modules=('aurel.solutions.ICPertFLRW', 'aurel.solutions.EdS', 'aurel.maths')):
+            c = Ctx(pre=pre, fork=False, decide_timeout=30)
+            with use_ctx(c):
+                order = 3
+                t = Jet.coordinate(0, sym('t'), 4, order)
+                rc = Jet.fresh('Rc', 4, order)
+                rc = Jet(4, order, {k: (tm.ZERO if 0 in k else v) for k, v in rc.c.items()})     # time independent
+                Rc = np.empty((1, 1, 1), dtype=object)
+                Rc[0, 0, 0] = rc
+                fd = JetFD(4)
+                gam = gr.ungrid(icp.gammadown3(eds, fd, t, Rc))
+                K = gr.ungrid(icp.Kdown3(eds, fd, t, Rc))
+                for i in range(3):
+                    for j in range(3):
+                        gij = gam[i, j] if isinstance(gam[i, j], Jet) else Jet.constant(gam[i, j], 4, 1)
+                        want = gij.diff(0) * F(-1, 2)
+                        obs.append(Ob(f'ICPertFLRW(EdS): Kdown3[{i},{j}]', T0(K[i, j]), T0(want), pre,
+                                      group='ICPertFLRW on EdS: K_ij == -(d_t gamma_ij)/2 (all 9 entries)'))
+                        if i < j:
+                            obs.append(Ob(f'ICPertFLRW(EdS): gammadown3[{i},{j}] == gammadown3[{j},{i}]', T0(gam[i, j]), T0(gam[j, i]), pre,
+                                          group='ICPertFLRW on EdS: gammadown3 symmetric'))
+    finally:
+        for k, v in saved.items():
+            setattr(eds, k, v)
+    return obs, pre
+
+
+def icpert_replay(name):
+    """float replay: the real module on the real EdS background with a non-separable Rc, 4th-order central difference in time"""
+    import re
+    from aurel.finitedifference import FiniteDifference
+    icp = importlib.import_module('aurel.solutions.ICPertFLRW')
+    eds = importlib.import_module('aurel.solutions.EdS')
+    i, j = map(int, re.search(r'\[(\d),(\d)\]', name).groups())
+    param = {'xmin': 0.0, 'ymin': 0.0, 'zmin': 0.0, 'dx': 0.05, 'dy': 0.05, 'dz': 0.05, 'Nx': 16, 'Ny': 16, 'Nz': 16}
+    fd = FiniteDifference(param, verbose=False, fd_order=6, boundary='periodic')
+    x, y, z = fd.cartesian_coords
+    L = 0.8
+    Rc = 1e-2 * np.sin(2 * np.pi * (x + 2 * y) / L) * np.cos(2 * np.pi * (z - x) / L) + 5e-3 * np.sin(2 * np.pi * (y + z) / L)
+    t = 1.3 * float(eds.t_today) if hasattr(eds, 't_today') else 1.3
+    dt_ = 1e-4 * t
+    g = lambda tt: icp.gammadown3(eds, fd, tt, Rc)          # noqa: E731
+    dg = (-g(t + 2 * dt_) + 8 * g(t + dt_) - 8 * g(t - dt_) + g(t - 2 * dt_)) / (12 * dt_)
+    K = icp.Kdown3(eds, fd, t, Rc)
+    d = float(np.max(np.abs(K[i, j] + dg[i, j] / 2)))
+    sc = float(np.max(np.abs(dg))) + 1e-300
+    return dict(max_abs_difference=d, scale=sc, relative=d / sc, reproduces=d / sc > 1e-7)
+
+
 def generator_rewrite(modname, obs, pre):
     """LCDM / Szekeres: rewrite the obligations over generators so that exp, the cube root of sinh, sqrt(cosh^2), LCDM's Hubble
     square root and the roots of the density parameters disappear.  With E = exp(u), S = (E - 1/E)/2, C = (E + 1/E)/2,
@@ -504,13 +568,17 @@ def run_module(args):
     import time
     t0 = time.time()
     try:
-        obs, pre, untranslated = build_module(modname, tier)
+        if modname == 'ICPertFLRW':
+            obs, pre = icpert_obligations()
+            untranslated = 0
+        else:
+            obs, pre, untranslated = build_module(modname, tier)
     except Exception as e:  # noqa
         import traceback
         return dict(module=modname, error=traceback.format_exc()[-600:], obs=[], stats=solver.STATS.as_dict())
     t_build = time.time() - t0
     try:
-        const_bad = constant_relations(modname)
+        const_bad = constant_relations(modname) if modname != 'ICPertFLRW' else []
     except Exception as e:  # noqa
         const_bad = [('constant_relations raised', 0.0, repr(e)[:120])]
     lemma_recs = []
@@ -599,6 +667,12 @@ def run_module(args):
 
 
 def float_replay(modname, name, model):
+    if modname == 'ICPertFLRW':
+        return icpert_replay(name)
+    return _float_replay(modname, name, model)
+
+
+def _float_replay(modname, name, model):
     """Evaluate the real module with numpy floats at the model point and compare with a finite-difference / numpy
     reference (independent of symx)."""
     from aurel.core import AurelCore
